@@ -9,7 +9,7 @@ CONFIG = {
         "V.C02.verify_sound_key", "V.C02.verify_sound_tamper", "V.C02.verify_needs_signature", "V.C02.verify_iff",
         "V.C02.listKeyIDs_complete", "V.C02.sign_never_panics", "V.C02.toy_ideal", "V.Sign.b64Decode_encode",
         "V.C02.verifyText_iff", "V.C02.signText_ok", "V.C02.ambiguous_never_verifies", "V.C02.ambiguous_never_signed",
-        "V.C02.dup_or_illformed_never_verifies", "V.C02.gate_uniqueKeys", "V.C02.verify_text_sound_tamper",
+        "V.C02.dup_or_illformed_never_verifies", "V.C02.gate_uniqueKeys", "V.C02.verify_text_sound_tamper", "V.C02.strict_signStrict",
     ],
     "rule": "sign: generated objects (C01's value generator; pre-existing signature maps with canonical / URL-safe / CRLF / "
             "non-canonical / invalid base64, null and ill-typed maps; `unsigned`; case-variant keys Signatures / unſigned ...) "
@@ -26,7 +26,10 @@ CONFIG = {
             "specification DEMANDS refusal (sign: err, accept: rej) whenever the signed members are not one definite value for "
             "every reader (Spec.definitePayload) and is silent (`unspecified`) when the ambiguity is confined to `signatures` / "
             "`unsigned`; the model (signJSONText / verifyJSONText = the gate checkStrictJSON + the value-level model) refuses "
-            "both. The model decides "
+            "both. The gate is SPLIT: VerifyJSON refuses duplicate names, lone surrogate escapes and invalid UTF-8; SignJSON only the "
+            "first two (PDU.Sign panics when signing fails and the event constructors accept invalid UTF-8 in kept fields), so "
+            "`sign.sign` on a text that passes SignJSON's gate but is not valid UTF-8 is skipped (outside the property: JSON texts are "
+            "Unicode; SignJSON behaves there as before the repair). The model decides "
             "with symbolic crypto from the facts (signature bytes, public key, payload) on the op line. Non-trivial = the text "
             "parses as an object; distinct by op line",
     "nontrivial": lambda op, impl: not impl.startswith("err:json") and impl != "err",
@@ -42,7 +45,8 @@ CONFIG = {
         "for soundness theorems; hypotheses of the theorems, instantiated by V.C02.toy_ideal; in the correspondence a signature verifies "
         "iff it is one of the genuine ed25519 signatures listed on the op line (for that key and payload)",
         "texts with duplicate member names (any depth), lone surrogate escapes or invalid UTF-8 are INSIDE the claim since the K7 "
-        "repair: SignJSON / VerifyJSON refuse them (V.C02.ambiguous_never_signed / ambiguous_never_verifies; gate = C01's domain, so "
+        "repair: VerifyJSON refuses all three, SignJSON duplicate names and lone surrogate escapes (V.C02.ambiguous_never_verifies / "
+        "ambiguous_never_signed, strict_signStrict; VerifyJSON's gate = C01's domain, so "
         "the UniqueKeys / numsOk hypotheses of the value-level theorems hold for every message that is read: gate_uniqueKeys, "
         "parse_numsOk). Decision on the excluded members: the Go gate covers the WHOLE message (a second `signatures` / `unsigned` "
         "member and duplicates / ill-formed strings inside them are refused too); the specification demands that only for the signed "
